@@ -2,7 +2,7 @@
   C06 — Market escrow: locked funds equal outstanding deal obligations.
   Property theorems over the model `BA.Market` (actors/market/src/{lib,state,balance_table}.rs).
 -/
-import BA.Lemmas.MarketPres
+import BA.Lemmas.MarketCore
 
 namespace BA.Market
 open BA
@@ -198,7 +198,7 @@ theorem addBalance_raises {s s' : State} {a : Nat} {v : Int} {r : Bool}
 /-- a settlement of deal `id` leaves the escrow of everybody but the deal's client and provider
     untouched; the client's goes down by the payment only, the provider's goes down only by its
     own slashed collateral (time-out) -/
-theorem settle_touches_only_deal_parties_partial (s : State) (id : Nat) (j : Nat)
+theorem settle_touches_only_deal_parties (s : State) (id : Nat) (j : Nat)
     (h : ∀ d, alookup id s.proposals = some d → j ≠ d.client ∧ j ≠ d.provider) :
     bal (settleOne s id).1.escrow j = bal s.escrow j := by
   unfold settleOne
@@ -232,7 +232,7 @@ theorem settle_touches_only_deal_parties_partial (s : State) (id : Nat) (j : Nat
           show bal s1.escrow j = _; rw [m.escrow]; simp [ind, hc, hpv]
 
 /-- the same for a termination -/
-theorem terminate_touches_only_deal_parties_partial {s s' : State} {c : Nat} {se : Int} {id : Nat}
+theorem terminate_touches_only_deal_parties {s s' : State} {c : Nat} {se : Int} {id : Nat}
     {a : Int} (h : terminateOne s c se id = .ok (s', a)) (j : Nat)
     (hj : ∀ d, alookup id s.proposals = some d → j ≠ d.client ∧ j ≠ d.provider) :
     bal s'.escrow j = bal s.escrow j := by
@@ -242,6 +242,42 @@ theorem terminate_touches_only_deal_parties_partial {s s' : State} {c : Nat} {se
   · rw [he]
   · obtain ⟨hc, hpv⟩ := hj d hp
     rw [m.escrow]; simp [ind, hc, hpv]
+
+/-- **Nothing else lowers an escrow.**  Split every escrow balance into what the party's own deals
+    explain — for each live deal `± price × (settled-up-to − start)` (+ as its provider, − as its
+    client), for each ended deal `+ paid − burnt` as provider and `− paid` as client — and the rest,
+    its *net deposits*.  Every message other than AddBalance and WithdrawBalance — any publication,
+    activation, settlement batch, termination, cron tick, with all their loops — leaves the net
+    deposits of *every* address exactly as they were: an escrow goes down only by payments for the
+    party's own deals as client and by the slashing of its own deals as provider. -/
+theorem nothing_else_lowers_escrow (s : State) (op : Op) (hi : Inv s)
+    (hop : op.movesNoFunds = true) (p : Nat) :
+    bal (step s op).1.escrow p - explained (step s op).1 p = bal s.escrow p - explained s p := by
+  have := step_net s op hi p
+  have hf : flow s op p = 0 := by
+    cases op <;> simp [Op.movesNoFunds] at hop <;> simp [flow]
+  simp only [net] at this; omega
+
+/-- AddBalance raises the net deposits of its target by the value sent, WithdrawBalance lowers those
+    of the nominal address by the amount paid out; nobody else's move -/
+theorem deposits_and_withdrawals_move_net (s : State) (hi : Inv s) (p : Nat) :
+    (∀ a v r s', addBalance s a v r = .ok s' →
+      bal s'.escrow p - explained s' p = bal s.escrow p - explained s p + ind p a v) ∧
+    (∀ c n a env so s' w, withdraw s c n a env so = .ok (s', w) →
+      bal s'.escrow p - explained s' p = bal s.escrow p - explained s p - ind p n w.amount) := by
+  have _ := hi
+  exact ⟨fun a v r s' h => net_addBalance h p, fun c n a env so s' w h => net_withdraw h p⟩
+
+/-- **The escrow equation, over whole histories.**  After any history every escrow balance is the
+    sum of the deposits made for that address minus what was withdrawn from it (`flows`) plus what
+    its deals explain in closed form (`explained`). -/
+theorem escrow_equation (ops : List Op) (p : Nat) :
+    bal (run init ops).escrow p = flows p init ops + explained (run init ops) p := by
+  have h := run_net ops init inv_init p
+  have h0 : net init p = 0 := by
+    simp [net, explained, init, bal_nil, dsum, asum]
+  simp only [net] at h h0
+  omega
 
 /-- a failing message changes nothing -/
 theorem failed_message_no_effect (s : State) (op : Op) (e : Err) (h : (step s op).2 = .err e) :
